@@ -982,4 +982,59 @@ Proof.
         rewrite E. ring.
 Qed.
 
+(** the uniform-cubic 1-D entry point on [xmin, xmax] (x = xmax included): the B-spline series of the
+    closed domain on the uniform extension knot vector - the same function as the general path
+    (sp_nu_eval_1d_closed) evaluates on that knot vector *)
+Lemma sp_mul_nonneg_cancel a d : 0 < d -> 0 <= a * d -> 0 <= a.
+Proof.
+  intros Hd H. assert (Hd0 : d <> 0) by (intros E; apply (proj2 Hd); symmetry; exact E).
+  replace a with ((a * d) * (1 / d)) by (field; exact Hd0).
+  apply (spl_mul_nonneg K HK); [exact H|apply sp_inv_nonneg, Hd].
+Qed.
+Lemma sp_tU_S xmin dx i : tUk xmin dx (S i) = tUk xmin dx i + dx.
+Proof. unfold tU. cbn [ofnat]. ring. Qed.
+Lemma sp_uniform_sorted xmin dx n : 0 < dx -> sp_sorted (sp_uniform_knots F K xmin dx n).
+Proof.
+  intros Hd i Hi. rewrite sp_uniform_knots_length in Hi. rewrite !sp_kn_uniform by lia.
+  rewrite sp_tU_S. apply sp_le_add_r, (proj1 Hd).
+Qed.
+Lemma sp_add_le_l a b c : b <= c -> a + b <= a + c.
+Proof. intros H. replace (a + b) with (b + a) by ring. replace (a + c) with (c + a) by ring.
+  apply (spl_add_le K HK), H. Qed.
+
+Theorem sp_cu_eval_1d_closed xmin xmax dx fn rest n coeffs x :
+  sp_trunc_ok -> (1 <= n)%nat -> 0 < dx -> xmax = xmin + ofn n * dx -> sptrunc K fn = Z.of_nat n ->
+  xmin <= x -> x <= xmax -> length coeffs = (n + 3)%nat ->
+  exists s, (3 <= s <= n + 2)%nat /\
+    sp_cu_eval_1d_scalar F K x (xmin :: xmax :: dx :: fn :: rest) 3 coeffs 0
+    = SpOk (sumr 0 4 (fun j => nth (s - 3 + j) coeffs 0
+              * sp_Nc (sp_uniform_knots F K xmin dx n) (n + 3) x 3 (s - 3 + j))).
+Proof.
+  intros Htr Hn Hdx Hmax Hfn Hlo Hhi Hc.
+  destruct (sp_cu_find_span_spec xmin xmax dx x n Htr Hn Hdx Hmax Hlo Hhi) as [s [o [E [Hr [Hx [Ho0 [Ho1 Hend]]]]]]].
+  assert (Hdx0 : dx <> 0) by (intros E0; apply (proj2 Hdx); symmetry; exact E0).
+  exists s. split; [exact Hr|].
+  rewrite (sp_cu_eval_1d_scalar_spec xmin xmax dx fn rest coeffs x 0 (Z.of_nat s) o)
+    by (try (rewrite Hfn; exact E); rewrite ?Nat2Z.id; lia).
+  rewrite Nat2Z.id. f_equal. apply Sums.sumr_ext. intros j Hj. f_equal.
+  rewrite <- (sp_cu_basis_eq_A22 xmin dx n s o Hdx0) by lia. rewrite <- Hx.
+  set (ukn := sp_uniform_knots F K xmin dx n).
+  assert (Hs1 : sp_kn F K ukn s = tUk xmin dx s) by (apply sp_kn_uniform; lia).
+  assert (Hs2 : sp_kn F K ukn (S s) = tUk xmin dx s + dx) by (unfold ukn; rewrite sp_kn_uniform by lia; apply sp_tU_S).
+  rewrite (sp_A22_eq_closed ukn 3 (n + 3) x s).
+  - rewrite (sp_nth_map_seq (fun q => sp_Nc ukn (n + 3) x 3 (s - 3 + q))) by lia. reflexivity.
+  - apply sp_uniform_sorted, Hdx.
+  - unfold sp_span_ok. rewrite Hs1, Hs2. split; [apply sp_le_add_r, (proj1 Hdx)|].
+    intros E0. apply Hdx0. replace dx with ((tUk xmin dx s + dx) - tUk xmin dx s) by ring. rewrite <- E0. ring.
+  - rewrite Hs1, Hx. apply sp_le_add_r. apply (spl_mul_nonneg K HK); [exact Ho0|exact (proj1 Hdx)].
+  - rewrite Hs2, Hx. apply sp_add_le_l. replace dx with (1 * dx) at 2 by ring. apply sp_mul_le_r; [exact Ho1|exact (proj1 Hdx)].
+  - lia.
+  - rewrite Hs2, Hx. intros H. assert (H1 : 1 <= o).
+    { apply sp_nonneg_sub. apply (sp_mul_nonneg_cancel _ dx Hdx).
+      replace ((o - 1) * dx) with ((tUk xmin dx s + o * dx) - (tUk xmin dx s + dx)) by ring.
+      apply sp_sub_nonneg, H. }
+    rewrite (Hend (spl_le_antisym K HK _ _ Ho1 H1)). lia.
+  - lia.
+Qed.
+
 End Theory.
